@@ -24,7 +24,7 @@ def parseKindC20 (j : Json) : Except String Flatland.Scalar.Kind :=
 def setValue (k : Flatland.Scalar.Kind) (x : NV) : NV :=
   match Flatland.Scalar.setScalar plainEnv k x with
   | .ok r => r.st.value
-  | .error _ => .none
+  | .error _ => .other "<member.set raised>".toList false     -- never produced by the generator; visible if it happens
 
 def parseNV (j : Json) : Except String NV := do
   if isNull j then return .none
